@@ -102,6 +102,24 @@ def run_script(tname, k, dflt, script):
                     # resynchronise the model with what is stored now
                     if dense or i in model:
                         model[i] = list(np.asarray(a[i]).tolist())
+                elif op[0] == 'alias':
+                    # the same caller array written to two entries, then one entry updated in place through a read
+                    if k == 1 or tname not in ('int', 'float'):
+                        continue
+                    i, j = op[1], op[2]
+                    if i == j or not (0 <= i < size and 0 <= j < size):
+                        continue
+                    src = np.array([vals[0]] * k)
+                    keep = src.copy()
+                    a[i] = src
+                    a[j] = src
+                    r = a[i]
+                    r[0] = vals[1]
+                    if not val_eq(a[j], keep):
+                        return '%s: two entries written from one array share storage: updating entry %d changed entry %d to %r' % ('dense' if dense else 'sparse', i, j, a[j])
+                    if not val_eq(src, keep):
+                        return "%s: the caller's array was modified through the attribute: %r -> %r" % ('dense' if dense else 'sparse', keep, src)
+                    model[i] = list(np.asarray(a[i]).tolist()); model[j] = list(keep.tolist())
                 elif op[0] == 'append':
                     c.append(99); size += 1
                 elif op[0] == 'extend':
@@ -142,6 +160,8 @@ def scripts(tname, seed, count):
         [('set', 0, tname, vals[0]), ('mutate_read', 0, 1), ('mutate_read', 2, 1), ('get', 1)],
         [('set', 2, tname, vals[1]), ('clear_attr',), ('get', 2), ('as_array',)],
         [('badsize', 0)],
+        [('alias', 0, 1), ('get', 1), ('get', 0)],
+        [('set', 1, tname, vals[0]), ('alias', 2, 1), ('get', 1)],
     ] + [[('set', 0, t, v), ('get', 0)] for t, v in allv]
     for s in base:
         yield s
